@@ -8,7 +8,7 @@ NVERS = {0: 4, 4: 4, 1: 4, 2: 4}  # likewise
 EXTRA = {0: [35], 4: [35], 1: [], 2: []}  # templates beyond C11's
 QUICK = {0: [5, 6, 12, 24, 29], 4: [1, 7, 10, 24, 30], 1: [5, 9, 12, 26], 2: [0, 1, 5]}
 # further operand pairs of the quick tier: the argument of Intersect/Union keeps overlapping unmerged spans
-QUICK_PAIRS = {0: [(9, 35), (35, 9), (1, 35)], 4: [(9, 35), (35, 9), (2, 35)], 1: [], 2: []}
+QUICK_PAIRS = {0: [(9, 35), (35, 9), (1, 35), (9, 32), (32, 9)], 4: [(9, 35), (35, 9), (2, 35), (32, 9)], 1: [], 2: []}
 
 
 def run(tier):
